@@ -8,8 +8,8 @@ HARNESS_MODS = ['rp']
 RULE = ('cases: rp.corrupt 1 mem16 style blocksize l:bits h:frame l:verdicts - the valid serial frame with the listed bits flipped (bit i = bit i%8, least '
         'significant first, of octet i/8) is SLIP-framed, received and processed; obs as rp.serve (return code, error id, parsed frame, backend calls, reply, '
         'ledger). Predicate on the implementation\'s observation: a damaged frame is a channel error or carries error id EBADMSG/EILSEQ/EFAULT/EPROTO and causes no '
-        'backend call. Corpus of nine frames (read/write requests 8/16 bit, acknowledgements with and without payload, error responses with and without payload, '
-        'meta): every single-bit flip, two-bit flips outside the first word (all pairs for the short frames, sampled for long ones in the quick tier), bursts of '
+        'backend call. Corpus of fifteen frames (read/write requests 8/16 bit, acknowledgements with and without payload, error responses with and without payload, '
+        'meta; frames whose stored payload / header checksum is 0x0000 or 0xffff): every single-bit flip, two-bit flips outside the first word (all pairs for the short frames, sampled for long ones in the quick tier), bursts of '
         'length 2..16 at every bit offset >= 16 (end bits set; interior all-ones, all-zeros, random; every interior for the bursts crossing a field boundary of the '
         'header up to length 12 quick / 16 thorough), every truncation length, extensions by 1..4 octets.  rp.serve cases: frames with every combination of the '
         'option bits, types, codes, right and wrong checksums on both transports (agreement with the model, whose verdict is proved equal to the independent '
@@ -34,6 +34,20 @@ def corpus(rng):
     fr.append(raw_frame(1, 6, 7, 0x0102, 0x64, 4, [0, 0, 0, 0x64]))
     fr.append(raw_frame(15, 2, 2, 0, 0, 0, []))
     fr.append(raw_frame(3, 2, 11, 77, 0x64, 0, []))
+    # frames whose stored checksums take the values an implementation might mistake for "absent": payload checksum 0x0000
+    # (every all-zero payload), header checksum 0x0000 / 0xffff and payload checksum 0xffff (sequence number / payload searched)
+    fr.append(raw_frame(2, 6, 0, 0x0007, 0x20, 4, [0, 0, 0, 0]))
+    fr.append(raw_frame(2, 7, 0, 0x0008, 0x20, 2, [0, 0, 0, 0]))
+    fr.append(raw_frame(1, 6, 0, 0x0009, 0x20, 2, [0, 0]))
+    for want in (0x0000, 0xffff):
+        for seq in range(65536):
+            f = raw_frame(0, 2, 0, seq, 0x40, 5, [])
+            if f[12] * 256 + f[13] == want:
+                fr.append(f); break
+        for a in range(65536):
+            pl = [a >> 8, a & 255, 0x5a]
+            if want and crc16(pl) == want:
+                fr.append(raw_frame(2, 6, 0, 0x000a, 0x20, 3, pl)); break
     return fr
 
 def line(raw, bits, mem16, rng):
